@@ -1672,7 +1672,11 @@ Proof.
   assert (L1 : np (fun n => N0 <= n) (fun _ _ => True)
                   (solve kinds (gfix fuel) (afix kinds (gfix fuel) fuel) (r_stmts r) (find_start (r_vars r)))).
   { unfold solve. apply (np_bind _ (fun _ _ => True)); [mn| |intros _].
-    - apply np_iterM_in; [mn|]. intros st Hin. rewrite forallb_forall in Hst.
+    { apply (np_iterM_in (fun n => N0 <= n)); [mn|]. intros st Hin. rewrite forallb_forall in Hst.
+      apply (np_outer_statement kinds N0 KB (gfix fuel) PG _ PA). apply Hst. apply filter_In in Hin. tauto. }
+    apply (np_bind _ (fun _ _ => True)); [mn| |intros _].
+    - eapply np_pre; [|apply (np_iterM_in (fun n => N0 <= n)); [mn|]]; [intros n [X _]; exact X|].
+      intros st Hin. rewrite forallb_forall in Hst.
       apply (np_outer_statement kinds N0 KB (gfix fuel) PG _ PA). now apply Hst.
     - destruct (find_start (r_vars r)) as [v|]; [|apply np_fail].
       apply (np_bind _ (fun i n => i < n)); [mn|eapply np_pre; [|apply np_push_type]; intros; constructor|intros vd].
